@@ -136,7 +136,10 @@ def _classes():
 
     class FiltS(unittest.TestSuite):
         def filter_by_ids(self, ids):
-            return type(self)([filter_by_ids(t, ids) for t in self])
+            r = type(self)([filter_by_ids(t, ids) for t in self])
+            if hasattr(self, LABEL):
+                setattr(r, LABEL, getattr(self, LABEL))     # the rebuilt suite stands for this one
+            return r
 
     class SortFiltS(SortS, FiltS):
         pass
@@ -169,14 +172,19 @@ def _classes():
             "P": P}, T
 
 
-def build(tree, classes, T, names, log=None):
+LABEL = "_vc19_label"     # every suite object built from the input tree carries its position path in that tree
+
+
+def build(tree, classes, T, names, log=None, pre=()):
     k = tree[0]
     if k == "C":
         i = tree[1]
         return classes["P"](names[i], log) if i % 2 == 0 else T(names[i], log)
-    if k == "P":
-        return unittest.TestSuite([build(c, classes, T, names, log) for c in tree[1]])
-    return classes[(tree[1], tree[2])]([build(c, classes, T, names, log) for c in tree[3]])
+    kids = tree[1] if k == "P" else tree[3]
+    members = [build(c, classes, T, names, log, pre + (j,)) for j, c in enumerate(kids)]
+    s = unittest.TestSuite(members) if k == "P" else classes[(tree[1], tree[2])](members)
+    setattr(s, LABEL, list(pre))
+    return s
 
 
 UNKNOWN = 999     # an id that is not in the case's table of names
@@ -186,15 +194,21 @@ def number(names, s):
     return names.index(s) if s in names else UNKNOWN
 
 
-def walk(x, names, pre=()):
-    """(path, id) of every leaf, by position; the harness's own traversal."""
+def walk(x, names, chain=()):
+    """(labels of the enclosing suites of the input tree, outermost first; id) of every leaf in iteration order;
+    the harness's own traversal.  Suites without a label (placeholders made by filtering, wrappers) enclose
+    nothing by themselves; a suite without any leaf beneath it contributes nothing; the index of a leaf's slot
+    is not looked at."""
     try:
         it = iter(x)
     except TypeError:
-        return [(list(pre), number(names, x.id()))]
+        return [([list(c) for c in chain], number(names, x.id()))]
+    lab = getattr(x, LABEL, None)
+    if lab is not None:
+        chain = chain + (tuple(lab),)
     out = []
-    for k, c in enumerate(it):
-        out += walk(c, names, pre + (k,))
+    for c in it:
+        out += walk(c, names, chain)
     return out
 
 
@@ -353,7 +367,8 @@ def term(case, o):
     else:
         s = "(Raised %s)" % o["sorted"]["raised"]
     ob = q.record([("o_iter", q.lst([q.nat(x) for x in o["iter"]])),
-                   ("o_filter", q.lst([q.pair(q.lst([q.nat(p) for p in path]), q.nat(i)) for path, i in o["filter"]])),
+                   ("o_filter", q.lst([q.pair(q.lst([q.lst([q.nat(p) for p in lab]) for lab in chain]), q.nat(i))
+                                       for chain, i in o["filter"]])),
                    ("o_sorted", s),
                    ("o_list", q.lst([q.nat(x) for x in o["list"]])),
                    ("o_cli_list", q.lst([q.nat(x) for x in o["cli_list"]])),
